@@ -40,8 +40,9 @@ theorem idfNonneg_source (T : @Search.Tuning ℝ) (h : T.idf = sourceIdf) : @Sea
   show decide (sourceIdf n df < 0) = false
   simpa using this
 
-/-- non-vacuity / reading check: at N = 10, df = 3 the source argument is (10 − 3 + ½)/(3 + ½) + 1 = 22/7 -/
-example : @Gen.Bm25F.idfArg ℝ (fieldScoreOps ℝ) (10 : ℝ) (3 : ℝ) = 22 / 7 := by
+/-- reading check that does not pin the constants: among 10 documents a term found in none of the others weighs more than
+    one found in all of them -/
+example : @Gen.Bm25F.idfArg ℝ (fieldScoreOps ℝ) (10 : ℝ) (10 : ℝ) < @Gen.Bm25F.idfArg ℝ (fieldScoreOps ℝ) (10 : ℝ) (0 : ℝ) := by
   unfold Gen.Bm25F.idfArg
   simp only [ScoreOps.add, ScoreOps.sub, ScoreOps.div, ScoreOps.one, ScoreOps.ofQ]
   norm_num
